@@ -46,6 +46,14 @@ import (
 
 const c15Root = extension.RootQuotaName
 
+// C15_DEBUG=1 lists (as diagnostics) the distinct reasons the webhook gave for rejecting requests that would have
+// kept the tree well-formed (stricter rules than the property; never a violation).
+var (
+	c15Debug         = os.Getenv("C15_DEBUG") != ""
+	c15StrictReasons sync.Map
+	c15NameRe        = regexp.MustCompile(`\b[abc]\b`)
+)
+
 // ---------------------------------------------------------------------------------------------------------
 // reference model: the admitted objects, as plain values
 
@@ -217,6 +225,10 @@ type c15Op struct {
 	Parent string
 	C      c15Content
 	label  string
+	// dupOK: this create is also submitted when the name already exists. Only the plain variants (one per parent)
+	// are: the webhook turns a duplicate down before it looks at the content (fill step, then "already exist"),
+	// and duplicates of all 30 variants per name would be half of all executed transitions.
+	dupOK bool
 }
 
 type c15Cfg struct {
@@ -251,7 +263,7 @@ func c15BuildOps(cfg c15Cfg) []c15Op {
 		for _, p := range parents {
 			for _, ip := range []bool{false, true} {
 				for _, tr := range []string{"", "t1"} {
-					ops = append(ops, c15Op{Kind: "create", Name: n, Parent: p, C: c15Content{Tree: tr, IsParent: ip, Max: c15MaxVals[0]},
+					ops = append(ops, c15Op{Kind: "create", Name: n, Parent: p, dupOK: !ip && tr == "", C: c15Content{Tree: tr, IsParent: ip, Max: c15MaxVals[0]},
 						label: fmt.Sprintf("create %s parent=%s isParent=%v tree=%q max{cpu:4}", n, c15Short(p), ip, tr)})
 				}
 			}
@@ -647,6 +659,9 @@ func (s *c15Sys) Apply(opi int, check bool) (bool, []mc.Violation) {
 	if op.Kind != "create" && cur == nil {
 		return false, nil
 	}
+	if op.Kind == "create" && cur != nil && !op.dupOK {
+		return false, nil // alphabet restriction, see c15Op.dupOK
+	}
 	if check {
 		// do not expand states that are already ill-formed: a violation is reported where it is introduced
 		if len(c15WellFormed(s.ref, s.cfg.gateOn)) > 0 {
@@ -768,6 +783,10 @@ func (s *c15Sys) Apply(opi int, check bool) (bool, []mc.Violation) {
 		if len(breaks) == 0 {
 			// stricter than the property demands (tree-id rules, is-parent with pods, duplicate create, ...): legitimate
 			s.res.Count("rejected_although_wellformed(stricter rule, legit)", 1)
+			s.res.Count("rejected_although_wellformed:"+opclass, 1)
+			if c15Debug {
+				c15StrictReasons.LoadOrStore(opclass+": "+c15NameRe.ReplaceAllString(err.Error(), "Q"), op.label)
+			}
 		}
 		for _, b := range breaks {
 			s.res.Count("rejected_would_break:"+b.Clause, 1)
@@ -853,8 +872,8 @@ func c15Configs(env *mc.Env) []c15Cfg {
 		}
 	}
 	return []c15Cfg{
-		{part: "hist-pod-on-a", names: ab, parents: []string{"a", "b", "missing"}, podOn: "a", depth: 4, share: 0.15, rich: true},
-		{part: "hist-gate-updatekey", names: ab, parents: []string{"a", "b", "missing"}, gateOn: true, depth: 4, share: 0.15, rich: true},
+		{part: "hist-pod-on-a", names: ab, parents: []string{"a", "b", "missing"}, podOn: "a", depth: 5, share: 0.3, rich: true},
+		{part: "hist-gate-updatekey", names: ab, parents: []string{"a", "b", "missing"}, gateOn: true, depth: 5, share: 0.25, rich: true},
 		{part: "hist-3names", names: abc, parents: []string{"a", "b", "c", "missing"}, depth: 5, share: 1, rich: true},
 	}
 }
@@ -904,7 +923,7 @@ func TestVerifC15Hist(t *testing.T) {
 		var clientSeq atomic.Uint64
 		res := mc.NewResult("C15", cfg.part, "bfs")
 		cnt := &c15Counters{}
-		res.Rule = fmt.Sprintf("every sequence (modulo state equivalence) of create/update/delete requests over names %v, parents {root,%s}, is-parent {f,t}, tree id {\"\",t1}, namespaces {[],[ns1],[ns1,ns2]}, max %v, min %v; %d request kinds; update = one field of the stored object changed; pod labelled with quota %q; gate ElasticQuotaEnableUpdateResourceKey=%v; a state is (admitted objects, recorded topology); ill-formed states are not expanded",
+		res.Rule = fmt.Sprintf("every sequence (modulo state equivalence) of create/update/delete requests over names %v, parents {root,%s}, is-parent {f,t}, tree id {\"\",t1}, namespaces {[],[ns1],[ns1,ns2]}, max %v, min %v; %d request kinds; update = one field of the stored object changed; create of an existing name only in the plain variant per parent; pod labelled with quota %q; gate ElasticQuotaEnableUpdateResourceKey=%v; a state is (admitted objects, recorded topology); ill-formed states are not expanded",
 			cfg.names, strings.Join(cfg.parents, ","), c15MaxVals, c15MinVals, len(ops), cfg.podOn, cfg.gateOn)
 		res.Assumptions = []string{
 			"every request the webhook accepts is persisted by the API server and every rejected one is not; update/delete of a non-existent quota never reach admission (404), create of an existing name does and is never persisted",
@@ -952,6 +971,13 @@ func TestVerifC15Hist(t *testing.T) {
 		start := env.Elapsed()
 		b.Run()
 		cnt.flush(res)
+		if c15Debug {
+			c15StrictReasons.Range(func(k, v any) bool {
+				fmt.Printf("STRICT-REJECT %s   e.g. [%s]\n", k, v)
+				return true
+			})
+			c15StrictReasons = sync.Map{}
+		}
 		res.WallS = (env.Elapsed() - start).Seconds()
 		env.Emit(res)
 	}
